@@ -55,6 +55,7 @@ class DatePairs(Sub):
     """exhaustive ordered date pairs in windows containing a leap year, both helper backends, direct calls"""
     name = "date_pairs_exhaustive"
     kind = "enum"
+    case_timeout = 900.0
     backends = ("rust",)
     n = {"quick": 0, "thorough": 0}
     shards = {"quick": 16, "thorough": 16}
